@@ -211,6 +211,25 @@ fn big_exec_case(work: &Path, w: &mut dyn Write, cram: bool, n: usize, to_stderr
     writeln!(w, "H {} {} {}|{}", if cram { 'c' } else { 'm' }, if to_stderr { 2 } else { 1 }, n, r).unwrap();
 }
 
+/// the shell leaves early (`exit 3`) with far more of its input unread than a pipe holds: the recorded exit code is the command's and
+/// no timeout is reported (the limit is a minute away)
+fn early_exit_case(work: &Path, w: &mut dyn Write, kb: usize) {
+    let mut cfg = TestCaseConfig::empty(); cfg.output_stream = Some(OutputStreamControl::Stdout); cfg.timeout = Some(Duration::from_secs(60));
+    let mut expr = String::from("printf hi; exit 3");
+    for _ in 0..(kb * 16) { expr.push_str("\n# xxxxxxxxxxxxxxxxxxxxxxxxxxxxxxxxxxxxxxxxxxxxxxxxxxxxxxxxxxxxx"); }
+    let t = tc(&expr, cfg);
+    let dir = tempfile::Builder::new().prefix("runearly.").tempdir_in(work).unwrap();
+    let mut doc = DocumentConfig::empty(); doc.total_timeout = Some(Duration::from_secs(60));
+    let ctx = ContextBuilder::default().work_directory(dir.path().to_path_buf()).temp_directory(dir.path().to_path_buf()).file(PathBuf::from("d.md")).config(doc).build().unwrap();
+    let res = std::panic::catch_unwind(std::panic::AssertUnwindSafe(|| StatefulExecutor::new(BashRunner::stateful_generator(Path::new("/bin/bash"))).execute_all(&[&t], &ctx)));
+    let r = match res {
+        Err(_) => "panic".to_string(),
+        Ok(Err(e)) => format!("error-{}", format!("{}", e).chars().take(40).map(|c| if c.is_ascii_alphanumeric() { c } else { '-' }).collect::<String>()),
+        Ok(Ok(outs)) => if outs.len() == 1 && outs[0].exit_code == ExitStatus::Code(3) && outs[0].stdout.to_bytes() == b"hi" { "ok".to_string() } else { format!("recorded-{}", show_out(&outs[0])) },
+    };
+    writeln!(w, "E m {}|{}", kb, r).unwrap();
+}
+
 pub fn main(args: &[String], w: &mut dyn Write) {
     let count: u64 = args[0].parse().unwrap();
     let nexec: u64 = args[1].parse().unwrap();
@@ -221,6 +240,7 @@ pub fn main(args: &[String], w: &mut dyn Write) {
     let work = tempfile::Builder::new().prefix("p_run.").tempdir_in(&base).unwrap();
     let mut r = Rng::new(seed.wrapping_add(shard * 86028121));
     if shard == 0 && big > 0 { crlf_big(big, w); crlf_big(big / 7 + 1, w); }
+    if big > 0 && shard == 4 % nsh { early_exit_case(work.path(), w, 200); }
     if big > 0 && shard < 4 { big_exec_case(work.path(), w, shard % 2 == 1, (big / 3).max(70000).min(2000000), shard >= 2); }
     for i in 0..(count / nsh) { if i % 2 == 0 { template_case(&mut r, work.path(), w); } else { crlf_case(&mut r, w); } }
     for k in 0..((nexec + nsh - 1 - shard) / nsh) { exec_case(&mut r, work.path(), w, shard == 0 && k == 0); }
